@@ -127,7 +127,15 @@ func (b *Batch) Get(key []byte) ([]byte, error) {
 	if pos == nil {
 		return nil, ErrKeyNotFound
 	}
-	value, err := b.db.activeFile.ReadRecordValue(pos)
+	// 批处理期间持有 DB 写锁, 可直接访问数据文件
+	dataFile := b.db.activeFile
+	if pos.Fid != dataFile.ID {
+		dataFile = b.db.olderFiles[pos.Fid]
+	}
+	if dataFile == nil {
+		return nil, ErrDataFileNotFound
+	}
+	value, err := dataFile.ReadRecordValue(pos)
 	if err != nil {
 		return nil, err
 	}
